@@ -35,17 +35,18 @@ ASSUMPTIONS = [
     'footprint: every read between start and end of a load lies inside the extents (first TIF marker / PR header .. end of last trailer) of the data '
     'records that contain requested frames, plus at most the 12 byte TIF marker + 4 byte header that immediately follows such a record',
 ]
-PROBES = ['two_files_interleaved', 'alternate_data_pass', 'stepped_cross_record_indirect', 'slice_starts_inside_record', 'only_short_last_record', 'subset_without_ch0', 'multi_sample', 'reused_chlist',
+PROBES = ['slice_beyond_last_frame', 'slice_beyond_refused', 'two_files_interleaved', 'alternate_data_pass', 'stepped_cross_record_indirect', 'slice_starts_inside_record', 'only_short_last_record', 'subset_without_ch0', 'multi_sample', 'reused_chlist',
           'two_log_passes', 'irregular_records', 'indirect_x', 'direct_x', 'tif', 'burst', 'up_log', 'time_log', 'tables', 'load_after_load_other_pass',
           'last_x_checked']
 
-File = FileIndexer = None
+File = FileIndexer = ExceptionTotalDepth = None
 
 
 def setup():
-    global File, FileIndexer
+    global File, FileIndexer, ExceptionTotalDepth
     from TotalDepth.LIS.core import File as _F, FileIndexer as _I
-    File, FileIndexer = _F, _I
+    from TotalDepth import ExceptionTotalDepth as _E
+    File, FileIndexer, ExceptionTotalDepth = _F, _I, _E
 
 
 def gen_ops(rng, model):
@@ -72,7 +73,11 @@ def gen_ops(rng, model):
             ch = None
         else:
             ch = sorted(rng.sample(range(nch), rng.wpick([(3, rng.randrange(1, nch + 1)), (2, rng.randrange(1, min(nch, 4) + 1))])))
-        ops.append(['load', fi, sl, ch, reuse and ch is not None])
+        op = ['load', fi, sl, ch, reuse and ch is not None]
+        if sl is not None and rng.chance(0.08):
+            # the last window of a caller paging in fixed windows: the slice runs past the last frame
+            op = ['load', fi, [sl[0], n + rng.pick([1, 2, 5, 8]), sl[2]], ch, op[4], 'beyond']
+        ops.append(op)
     return ops
 
 
@@ -222,7 +227,8 @@ def execute(scenario):
                     shadow_step(res, shadow, sfi, k)
         if op is None:
             break
-        _, fi, sl, chans, reuse = op
+        _, fi, sl, chans, reuse = op[:5]
+        beyond = len(op) > 5 and op[5] == 'beyond'
         if fi >= len(lps):
             continue
         res.op('load')
@@ -238,6 +244,11 @@ def execute(scenario):
                 b = a + 1
             rows = list(range(a, b, s))
             slobj = slice(a, b, s)
+            if beyond:
+                # what exists of the requested frames; the slice handed over runs past them
+                rows = list(range(a, n, s))
+                slobj = slice(a, max(sl[1], n + 1), s)
+                res.probe('slice_beyond_last_frame')
         if chans is None:
             cols = list(range(len(d['channels'])))
             arg = None
@@ -274,6 +285,11 @@ def execute(scenario):
             exc = err
         t1 = clock.seq
         op_shapes.append(('S' if slobj is not None else 'F') + ('c' if chans is not None else 'a') + str(min(len(recs_needed), 3)))
+        if exc is not None and beyond and isinstance(exc, (IndexError, ValueError, LookupError) + ((ExceptionTotalDepth,) if ExceptionTotalDepth else ())):
+            # refusing frames that do not exist is one of the two admissible answers (the other: exactly the rows that do exist)
+            res.ev('load', k, 'refused:' + type(exc).__name__)
+            res.probe('slice_beyond_refused')
+            continue
         if exc is not None:
             res.ev('load', k, 'exc:' + type(exc).__name__)
             res.violation('load-exception', f'op {k} {op}: {type(exc).__name__}: {exc}', exc=type(exc).__name__, **facts)
